@@ -53,9 +53,10 @@ def visit(acc, blk, vec, asg, idx):
 def blocks(tier):
     if tier == "thorough":
         return spaces.v4_blocks("thorough", "short") + spaces.v4_blocks("quick", "override") + \
-            spaces.v4_xmod_blocks(("mid", "mid"))
+            spaces.v4_xmod_blocks(("mid", "mid")) + [spaces.interaction_block("4.0", tier)]
     return spaces.v4_blocks("quick", "short", ("mid", "mid")) + \
-        spaces.v4_blocks("quick", "override", ("min", "mid")) + spaces.v4_xmod_blocks(("mid", "mid"))
+        spaces.v4_blocks("quick", "override", ("min", "mid")) + spaces.v4_xmod_blocks(("mid", "mid")) + \
+        [spaces.interaction_block("4.0", tier)]
 
 
 def run(ctx, res):
@@ -71,6 +72,7 @@ def run(ctx, res):
                "compared with the exact model; points distinct by construction; non-trivial = "
                "score is not 0.0", exhaustive=True)
     res.coverage["official_vectors_reproduced_by_model"] = n_off
+    res.coverage["interaction_rows"] = spaces.interaction_evidence(["4.0"], ctx.tier)
     res.coverage["bound"] = (
         "all 15,116,544 effective assignments (short spelling) + skeleton/one-free-group blocks in "
         "the override spelling" if ctx.thorough else
